@@ -13,6 +13,7 @@ import Driver.OpsToken
 import Driver.OpsScope
 import Driver.OpsTP
 import Driver.OpsClient
+import Driver.OpsHeader
 
 namespace Driver
 open Macaroon
@@ -70,7 +71,7 @@ def evalOp : Sx → Option String
 def evalLine (line : String) : String :=
   match Sx.parse line with
   | none => "bad-parse"
-  | some sx => ((evalOp sx) <|> (evalOpWire sx) <|> (evalOpToken sx) <|> (evalOpScope sx) <|> (TPIO.evalOpTP sx) <|> (ClientIO.evalOpClient sx)).getD "bad-op"
+  | some sx => ((evalOp sx) <|> (evalOpWire sx) <|> (evalOpToken sx) <|> (evalOpScope sx) <|> (TPIO.evalOpTP sx) <|> (ClientIO.evalOpClient sx) <|> (evalOpHeader sx)).getD "bad-op"
 
 partial def loop (h : IO.FS.Stream) (out : IO.FS.Stream) : IO Unit := do
   let line ← h.getLine
